@@ -11,8 +11,43 @@ from harness.project import proj_diagram, EMPTY_OBS, DiagramSink
 NONE = -1000
 
 
+CALL_LIMIT = float(os.environ.get("VERIF_CALL_LIMIT", "8"))      # CPU seconds per API call, measured in the calling process (immune
+                                                                   # to machine load); the slowest healthy call of a run is in the evidence
+SLOWEST = [0.0]
+TIMEOUT_BUDGET = 6      # per worker process: once spent, the normal-form blocks of further states are not run (the
+                        # timeouts already recorded are violations; the run must still end in bounded time)
+TIMEOUTS = [0]
+
+
+class CallTimeout(BaseException):
+    """the call did not return within CALL_LIMIT (BaseException: library code catching Exception cannot swallow it)"""
+
+
+class time_limit:
+    def __init__(self, seconds):
+        self.seconds = seconds
+
+    def __enter__(self):
+        import signal
+
+        def handler(signum, frame):
+            raise CallTimeout()
+        import time
+        self.t0 = time.process_time()
+        self.old = signal.signal(signal.SIGVTALRM, handler)
+        signal.setitimer(signal.ITIMER_VIRTUAL, self.seconds)
+
+    def __exit__(self, *exc):
+        import signal
+        import time
+        signal.setitimer(signal.ITIMER_VIRTUAL, 0)
+        signal.signal(signal.SIGVTALRM, self.old)
+        SLOWEST[0] = max(SLOWEST[0], time.process_time() - self.t0)
+        return False
+
+
 def exc_name(e):
-    return type(e).__name__
+    return "Timeout" if isinstance(e, CallTimeout) else type(e).__name__
 
 
 def call(op, i=0, j=0, g=0, p=0, ref=0):
@@ -64,7 +99,14 @@ class Replayer:
         raise ValueError(op)
 
     def observe(self, real, c):
-        """Make the call; returns (record, real result or None)."""
+        """Make the call under a wall-clock limit; returns (record, real result or None)."""
+        with time_limit(CALL_LIMIT):
+            rec, res = self._observe(real, c)
+        if rec["exc"] == "Timeout":
+            TIMEOUTS[0] += 1
+        return rec, res
+
+    def _observe(self, real, c):
         rec = dict(c)
         rec["steps"] = []
         if c["op"] == "normalize":
@@ -75,7 +117,7 @@ class Replayer:
                     if k + 1 >= self.max_steps:
                         exc = "Truncated"
                         break
-            except Exception as e:
+            except (Exception, CallTimeout) as e:
                 exc = exc_name(e)
             rec["steps"] = [proj_diagram(s, self.A.names) for s in steps]
             rec["exc"], rec["res"] = exc, EMPTY_OBS
@@ -86,7 +128,7 @@ class Replayer:
             if c["op"] == "foliate":
                 rec["aux"] = int(real.depth())
             return rec, res
-        except Exception as e:
+        except (Exception, CallTimeout) as e:
             rec["exc"], rec["res"] = exc_name(e), EMPTY_OBS
             return rec, None
 
@@ -131,6 +173,8 @@ class Replayer:
             if c["op"] == "interchange" and res is not None and abs(c["i"] - c["j"]) == 1:
                 neighbours.append((len(calls), res))
         for l in (0, 1):
+            if TIMEOUTS[0] >= TIMEOUT_BUDGET:
+                break
             rec, nf = self.observe(real, call("normal_form", g=l))
             calls.append(rec)
             a = len(calls)
@@ -223,7 +267,7 @@ def _worker(args):
     with open(hook_path, "w") as f:
         for rec in sink.seen.values():
             f.write(json.dumps(rec, sort_keys=True) + "\n")
-    return n, sink.total, len(sink.seen), sink.errors[:3]
+    return n, sink.total, len(sink.seen), sink.errors[:3], SLOWEST[0]
 
 
 def replay(adapter_cls, lib, states, work, seed, procs=16, full=True, tag="replay"):
@@ -238,7 +282,8 @@ def replay(adapter_cls, lib, states, work, seed, procs=16, full=True, tag="repla
     with ctx.Pool(procs) as pool:
         res = pool.map(_worker, args)
     stats = {"calls": sum(r[0] for r in res), "constructed": sum(r[1] for r in res),
-             "distinct_constructed": sum(r[2] for r in res), "hook_errors": [e for r in res for e in r[3]]}
+             "distinct_constructed": sum(r[2] for r in res), "hook_errors": [e for r in res for e in r[3]],
+             "slowest_call_cpu_s": round(max(r[4] for r in res), 3), "call_limit_cpu_s": CALL_LIMIT}
     return [a[4] for a in args], [a[5] for a in args], stats
 
 
